@@ -3,12 +3,12 @@
 HERE=$(cd "$(dirname "$0")" && pwd)
 for g in "$@"; do
   for v in a b; do
-    d=/tmp/mut7-out/$g/$v
+    d=/tmp/mut${R:-7}-out/$g/$v
     [ -f $d/meta.json ] || { echo "$g-$v: no meta.json"; continue; }
     [ -f $d/stored ] && { echo "$g-$v: already stored as $(cat $d/stored)"; continue; }
-    python3 $HERE/confirm_mut5.py /tmp/mut7-$g $d | cut -c1-400
+    python3 $HERE/confirm_mut5.py /tmp/mut${R:-7}-$g $d | cut -c1-400
     if python3 -c "import json,sys; sys.exit(0 if json.load(open('$d/confirm.json')).get('confirmed') else 1)"; then
-      python3 $HERE/store_mut5.py /tmp/mut7-$g $d "independent sub-agent, seventh round (given only the texts of two properties, the list of sites already used, and a scratch worktree; theme: a plausible maintainer commit - optimisation, refactor, small feature - that is subtly wrong and needs something specific to manifest)" > $d/stored && echo "$g-$v stored as $(cat $d/stored)"
+      python3 $HERE/store_mut5.py /tmp/mut${R:-7}-$g $d "independent sub-agent, ${ORIGIN:-seventh round (given only the texts of two properties, the list of sites already used, and a scratch worktree; theme: a plausible maintainer commit - optimisation, refactor, small feature - that is subtly wrong and needs something specific to manifest)}" > $d/stored && echo "$g-$v stored as $(cat $d/stored)"
     fi
   done
 done
